@@ -615,7 +615,7 @@ func expandCore(p *packages.Package, src []byte, call *ast.CallExpr, c *candidat
 		return "", nil, false
 	}
 	// results
-	var resNames []string
+	var resNames, innerDecl, innerNames []string
 	if fd.Type.Results != nil {
 		ri := 0
 		for _, fld := range fd.Type.Results.List {
@@ -626,7 +626,13 @@ func expandCore(p *packages.Package, src []byte, call *ast.CallExpr, c *candidat
 			for _, nm := range names {
 				name := fmt.Sprintf("r%d%s", ri, suffix)
 				if nm != nil && nm.Name != "_" {
-					ren[p.TypesInfo.Defs[nm]] = name
+					// a named result lives in the helper's outermost scope, where `x, err := f()` re-uses it; the copy keeps
+					// that: the named result becomes a variable declared in the same scope as the body's top-level statements,
+					// and every return copies the values out into the result temporaries
+					inner := fmt.Sprintf("n%d%s", ri, suffix)
+					ren[p.TypesInfo.Defs[nm]] = inner
+					innerDecl = append(innerDecl, fmt.Sprintf("var %s %s; _ = %s", inner, text(fld.Type), inner))
+					innerNames = append(innerNames, inner)
 				}
 				pre = append(pre, fmt.Sprintf("var %s %s; _ = %s", name, text(fld.Type), name))
 				resNames = append(resNames, name)
@@ -662,6 +668,12 @@ func expandCore(p *packages.Package, src []byte, call *ast.CallExpr, c *candidat
 					unlock = c.unlockText + "; "
 				}
 				switch {
+				case len(y.Results) == 0 && len(innerNames) > 0:
+					if len(innerNames) != len(resNames) {
+						okRet = false // partly named results cannot occur; be safe
+						break
+					}
+					edits = append(edits, edit{off(y.Pos()), off(y.Pos()) + len("return"), "{ " + strings.Join(resNames, ", ") + " = " + strings.Join(innerNames, ", ") + "; " + unlock + "break " + label + " }"})
 				case len(y.Results) == 0:
 					edits = append(edits, edit{off(y.Pos()), off(y.Pos()) + len("return"), "{ " + unlock + "break " + label + " }"})
 				case len(resNames) == 0:
@@ -705,6 +717,9 @@ func expandCore(p *packages.Package, src []byte, call *ast.CallExpr, c *candidat
 		b.WriteString(label + ":\n")
 	}
 	b.WriteString("switch {\ndefault:\n")
+	for _, l := range innerDecl {
+		b.WriteString(l + "\n")
+	}
 	fmt.Fprintf(&b, "//line %s:%d\n", file, bodyLine)
 	b.WriteString(body)
 	fmt.Fprintf(&b, "\n//line %s:%d\n", file, resumeLine)
